@@ -620,6 +620,8 @@ impl IdlSqliteTransaction for IdlSqliteReadTransaction {
     }
 
     fn get_conn(&self) -> Result<&Connection, OperationError> {
+        #[cfg(feature = "verif-hooks")]
+        crate::verif_hooks::point("sql.r.conn")?;
         self.conn
             .as_ref()
             .ok_or(OperationError::TransactionAlreadyCommitted)
@@ -659,6 +661,8 @@ impl IdlSqliteReadTransaction {
         // this a Result<>
         //
         // There is no way to flag this is an RO operation.
+        #[cfg(feature = "verif-hooks")]
+        crate::verif_hooks::point("sql.r.begin")?;
         conn.execute("BEGIN DEFERRED TRANSACTION", [])
             .map_err(sqlite_error)?;
 
@@ -676,6 +680,8 @@ impl IdlSqliteTransaction for IdlSqliteWriteTransaction {
     }
 
     fn get_conn(&self) -> Result<&Connection, OperationError> {
+        #[cfg(feature = "verif-hooks")]
+        crate::verif_hooks::point("sql.w.conn")?;
         self.conn
             .as_ref()
             .ok_or(OperationError::TransactionAlreadyCommitted)
@@ -709,6 +715,8 @@ impl IdlSqliteWriteTransaction {
         db_name: &'static str,
     ) -> Result<Self, OperationError> {
         // Start the transaction
+        #[cfg(feature = "verif-hooks")]
+        crate::verif_hooks::point("sql.w.begin")?;
         conn.execute("BEGIN EXCLUSIVE TRANSACTION", [])
             .map_err(sqlite_error)?;
         Ok(IdlSqliteWriteTransaction {
@@ -726,6 +734,8 @@ impl IdlSqliteWriteTransaction {
         std::mem::swap(&mut dropping, &mut self.conn);
 
         if let Some(conn) = dropping {
+            #[cfg(feature = "verif-hooks")]
+            crate::verif_hooks::point("sql.w.commit")?;
             conn.execute("COMMIT TRANSACTION", [])
                 .map(|_| ())
                 .map_err(|e| {
